@@ -1089,3 +1089,119 @@ def run_cert_driver(requests, driver_bin, shards=4):
             elif l.startswith("ERROR"):
                 raise common.CheckError("certificate driver: " + l)
     return res
+
+
+# ---- recogniser of the cycle engine's known class D on single-threaded records (cycle_harness lines)
+
+def participant_validated_in_revision(case_text, impl_lines, step):
+    """C12 cycle_participant_validated_on_incomplete_edges, by mechanism, on the implementation's own
+    events/state: in the failing step OR in an earlier step of the SAME revision (no write in
+    between) a former cycle participant — a FINAL memo of a fixpoint/fallback family that still
+    lists cycle heads — was VALIDATED (DidValidateMemoizedValue) without being executed in that
+    step.  (cycleengine.known_class only looks at the failing step; the stale value is also
+    returned by a later hot read of the same revision, which has no events at all.)
+    -> the key 'F.K' of such a memo, or None"""
+    from . import cycleengine as ce
+    a = se.split_lines(impl_lines)
+    hist = hist_of(se.parse_sx(case_text))[1:]
+    i = step
+    while i >= 0:
+        if hist[i][0] in ("set", "synth") and i != step:
+            break
+        memos = ce.parse_memos(a["S"].get(i, ""))
+        evs = a["E"].get(i, "").split()
+        executed = {e.split(":", 1)[1] for e in evs if e.startswith("x:")}
+        for e in evs:
+            if e.startswith("v:"):
+                k = e.split(":", 1)[1]
+                m = memos.get(k)
+                if m and k not in executed and int(k.split(".")[0]) in CYC_FAMS and m["final"] and m["heads"]:
+                    return k
+        i -= 1
+    return None
+
+
+# ---- single-threaded: a body PANICS inside a nested fixpoint (C22 clause for cyclic programs)
+
+def generate_pn(seed, n, size, prefix="pn"):
+    """-> list of (guarded, baseline, twin) case texts for harness/src/cycle_harness.rs.
+    guarded : a nested / random cyclic program of the fixpoint profile in which one member's body is
+              `BODY | (if COND (panicif 0) 0)`; COND is mostly the provisional value of another member, so
+              the panic fires in a LATER iteration, when provisional memos of inner heads exist; histories
+              switch the fault on, read (the read unwinds, or not), switch it off, re-read in the same
+              revision, write (mostly shrinking an input the program reads), read every member;
+    baseline: the same program and history with the fault never switched on (what the same history
+              returns without any panic);
+    twin    : the program without the guard (class mono_table) with `(spec kleene)`: its V column is
+              the specification of every read (the guard's value is 0 whether or not it panics)."""
+    rng = random.Random(f"{seed}/c22pn/{size}")
+    g = Gen18(rng, "fix", size)
+    out = []
+    for i in range(n):
+        r = rng
+        nk, ni, nl, ival, idur, members, tops = g.nested_program() if r.random() < 0.7 else g.random_program()
+        nl = [list(x) for x in nl]
+        host = r.choice([x for x in nl if (int(x[1]), int(x[2])) in members])
+        c = r.random()
+        if c < 0.65:
+            m = r.choice(members)
+            cond = ["call", m[0], ["lit", m[1]]]
+            if r.random() < 0.4:
+                cond = ["op", "and", cond, ["lit", r.choice([1, 2, 4, 6, 12, 255])]]
+        elif c < 0.85:
+            cond = ["lit", 1]
+        else:
+            cond = g.cg.in_expr(ni, 1)
+        guarded_nl = [[x[0], x[1], x[2], ["op", "or", x[3], ["if", cond, ["panicif", 0], ["lit", 0]]]] if x is host else x
+                      for x in nl]
+        used = []
+
+        def walk(e):
+            if isinstance(e, list):
+                if e and e[0] == "in":
+                    used.append((int(e[1]), int(e[2])))
+                for y in e[1:]:
+                    walk(y)
+        for x in nl:
+            walk(x[3])
+        everything = list(members) + tops
+        hist = []
+        if r.random() < 0.4:
+            q = r.choice(everything)
+            hist.append(["get", q[0], q[1]])
+        for ph in range(r.randint(2, 3 if size == "quick" else 5)):
+            hist.append(["setpanic", 0, 1])
+            for _ in range(r.choice([1, 1, 2, 3])):
+                q = r.choice(everything)
+                hist.append(["get", q[0], q[1]])
+            if r.random() < 0.8:
+                hist.append(["setpanic", 0, 0])
+                if r.random() < 0.5:          # the same nodes again, same revision, fault off
+                    for _ in range(r.choice([1, 2])):
+                        q = r.choice(everything)
+                        hist.append(["get", q[0], q[1]])
+            # a new revision
+            if r.random() < 0.1:
+                hist.append(["synth", 0])
+            else:
+                i_, f_ = r.choice(used) if used and r.random() < 0.8 else (r.randrange(ni), r.randrange(3))
+                hist.append(["set", i_, f_, r.choice([0, 0, 1, 2, 4] if r.random() < 0.6 else MASKS18)])
+            if hist[-2][0] != "setpanic" or hist[-2][2] != 0:
+                if ["setpanic", 0, 0] not in hist[-3:]:
+                    hist.append(["setpanic", 0, 0])
+            order = list(everything)
+            r.shuffle(order)
+            hist += [["get", q[0], q[1]] for q in order[:r.randint(2, len(order))]]
+        hist.append(["setpanic", 0, 0])
+        order = list(everything)
+        r.shuffle(order)
+        hist += [["get", q[0], q[1]] for q in order]
+        base_hist = [(["setpanic", 0, 0] if op[0] == "setpanic" else op) for op in hist]
+
+        def text(cid, spec, nodes, h):
+            return sx(["case", cid, ["cfg", ["nk", nk], ["ni", ni], ["nf", 3], ["nfam", 5], ["spec", spec]],
+                       ["ival"] + ival, ["idur"] + idur, ["prog"] + nodes, ["hist"] + h])
+        cid = f"{prefix}{i}"
+        out.append((text(cid, "none", guarded_nl, hist), text(cid + "b", "none", guarded_nl, base_hist),
+                    text(cid + "t", "kleene", nl, hist)))
+    return out
